@@ -80,15 +80,23 @@ def run(ctx, only=None):
                             memory_obs_run_r=ref.obs["r"][:14],
                             subscribers=[[list(spec), [list(e[:2]) for e in out], fin]
                                          for spec, out, fin in ref.subs["r"]][:4]), limit=4)
+    # _stream_events: parameter / header precedence (finite pools, all combinations)
+    cexprs, cdescr, cfails = EL.cursor_cases()
+    for key, what in cfails:
+        fails.append(dict(key=key, what=what, backend="_stream_events", ops=[], case=-1))
+    cres = ctx.run_cases("stream_cursor", EL.HEADER, cexprs, shard=120)
+    cbad = [cdescr[i] for i, z in enumerate(cres) if z != 0]
+    ctx.suite("stream-cursor", combinations=len(cexprs), disagreements=len(cbad), monitor_failures=len(cfails))
+    ctx.count(len(cexprs))
     res = ctx.run_cases("eventlog", EL.HEADER, exprs, shard=60)
     bad = [i for i, z in enumerate(res) if z != 0]
     ctx.programs += nexec
-    ctx.disagreements += len(bad)
+    ctx.disagreements += len(bad) + len(cbad)
     ctx.disagreements_checked = len(bad)
     ctx.suite("eventlog", cases=len(cases), executions=nexec, compared=len(exprs),
               disagreements=len(bad), monitor_failures=len(fails), **tot)
     # a broken implementation distorts the distribution; coverage is only demanded of quiet runs
-    if not only and not fails and not bad:
+    if not only and not fails and not bad and not cbad:
         for c, m in (("cursor_ahead", 10), ("late_events_below_cursor", 5), ("cursor_now", 5), ("terminal_mid_log", 5),
                      ("events_after_terminal", 3), ("resolve_now", 3), ("base_subs", 5), ("filtered_streams", 3),
                      ("internal_events", 5), ("subclass_terminals", 3), ("limited_queries", 3), ("ticks", 10)):
@@ -101,6 +109,10 @@ def run(ctx, only=None):
         ctx.finding(f["key"], "C16 fails on the real store (%s): %s" % (f["backend"], f["what"]),
                     dict(kind="implementation-monitor", backend=f["backend"], ops=[list(o) for o in f["ops"]],
                          replay_hint="bin/check C16 --replay <this file> re-executes ops on the real stores"))
+    if cbad and not fails:
+        ctx.violation("model/implementation disagreement in suite stream-cursor (no property-level failing input "
+                      "found)", dict(suite="stream-cursor", theorem="C16_stream_cursor / C16_reconnect_by_header",
+                                     cases=cbad[:5]), found_input=False)
     if bad and not fails:
         i = bad[0]
         ci, b, r = meta[i]
